@@ -341,6 +341,108 @@ def _single_def_value(ctx, fn, name_node):
     return None
 
 
+def _one_record_per_arm(ctx, fn, lp, c, nones, regs, res_names):
+    """Abstract run of one iteration of the arm loop over its control-flow graph.  State: number of records
+    appended so far (capped), whether the reachability test `c` has succeeded for some other successor, and
+    the boolean flags assigned constants (or the test itself).  Returns None when on every path exactly one
+    record is appended, the placeholder only after a success and the region only without one; else a reason."""
+    if len(res_names) != 1 or not nones or not regs:
+        return "the result does not get a placeholder (None) and a region record per successor"
+    cfg = ctx.cfg(fn)
+    head = cfg.node_of(lp)
+    if head is None:
+        return "arm loop not found in the control-flow graph"
+    body_nodes = {id(n) for n in ast.walk(ast.Module(lp.body, []))}
+
+    def in_body(nd) -> bool:
+        return nd.stmt is not None and id(nd.stmt) in body_nodes
+
+    def has_c(e) -> bool:
+        return e is not None and any(x is c for x in ast.walk(e))
+
+    def quantified(e) -> bool:
+        # any(<.. c ..> for ..): false means that the test failed for every other successor
+        return isinstance(e, ast.Call) and isinstance(e.func, ast.Name) and e.func.id == "any" and has_c(e)
+
+    none_ids = {id(a) for a in nones}
+    reg_ids = {id(a) for a in regs}
+    problems = []
+    finals = set()
+    start = [s_ for s_ in head.succ if in_body(s_)]
+    seen = set()
+    work = [(s_, (0, False, ())) for s_ in start]
+    steps = 0
+    while work and steps < 20000:
+        steps += 1
+        nd, st = work.pop()
+        if (nd.idx, st) in seen:
+            continue
+        seen.add((nd.idx, st))
+        cnt, succ_, flags = st
+        fl = dict(flags)
+        if nd is head or not in_body(nd):
+            finals.add((cnt, nd is head))
+            continue
+        s_ = nd.stmt
+        nxt = list(nd.succ)
+        if nd.kind == "if":
+            t = s_.test
+            neg = False
+            while isinstance(t, ast.UnaryOp) and isinstance(t.op, ast.Not):
+                t, neg = t.operand, not neg
+            tsucc = nd.true_succ
+            outs = []
+            for m in nd.succ:
+                if m in (cfg.raise_exit,):
+                    continue
+                is_true = m is tsucc
+                val = is_true != neg  # truth of t on this edge
+                ns, nf = succ_, dict(fl)
+                if isinstance(t, ast.Name) and t.id in fl:
+                    known = fl[t.id]
+                    if known in (True, False) and known != val:
+                        continue
+                    if known == "S":
+                        ns = ns or val
+                elif has_c(t):
+                    if val:
+                        ns = True
+                outs.append((m, (cnt, ns, tuple(sorted(nf.items(), key=str)))))
+            work.extend(outs)
+            continue
+        if nd.kind == "stmt" and isinstance(s_, ast.Assign) and len(s_.targets) == 1 and isinstance(s_.targets[0], ast.Name):
+            nm = s_.targets[0].id
+            if isinstance(s_.value, ast.Constant) and isinstance(s_.value.value, bool):
+                fl[nm] = s_.value.value
+            elif has_c(s_.value):
+                fl[nm] = "S"
+            else:
+                fl.pop(nm, None)
+        if nd.kind == "stmt":
+            for call in [x for x in ast.walk(s_) if isinstance(x, ast.Call)] if not isinstance(s_, (ast.FunctionDef, ast.ClassDef)) else []:
+                if id(call) in none_ids:
+                    cnt = min(cnt + 1, 2)
+                    if not succ_:
+                        problems.append("a placeholder is recorded on a path where no other successor was found to reach the arm")
+                elif id(call) in reg_ids:
+                    cnt = min(cnt + 1, 2)
+                    if succ_:
+                        problems.append("the region is recorded although another successor reaches the arm")
+        st2 = (cnt, succ_, tuple(sorted(fl.items(), key=str)))
+        for m in nxt:
+            if m is cfg.raise_exit:
+                continue
+            work.append((m, st2))
+    if steps >= 20000:
+        return "the arm loop is too intricate to follow"
+    if problems:
+        return problems[0]
+    bad_counts = sorted({cnt for cnt, _ in finals if cnt != 1})
+    if bad_counts:
+        return f"some path through one iteration appends {'no' if bad_counts[0] == 0 else 'more than one'} record"
+    return None
+
+
 @rule("QUERY-4", 3, "a branch arm is empty exactly when it is reachable from some other successor of the branching block (quantified over all of them); otherwise its region is the set of blocks dominated by the arm and not by the join")
 def query4(ctx) -> List[Ob]:
     out: List[Ob] = []
@@ -352,18 +454,22 @@ def query4(ctx) -> List[Ob]:
         it = lp.iter
         if isinstance(it, ast.Call) and isinstance(it.func, ast.Name) and it.func.id == "enumerate" and it.args:
             it = it.args[0]
+        zipped = False
+        if isinstance(it, ast.Call) and isinstance(it.func, ast.Name) and it.func.id == "zip" and it.args and isinstance(lp.target, ast.Tuple):
+            # the arm walks the first sequence, something else is paired with it
+            it, zipped = it.args[0], True
         src = it
         if isinstance(it, ast.Name):
             src = _single_def_value(ctx, fn, it) or it
         if isinstance(src, ast.Attribute) and src.attr in ("jump_targets", "_jump_targets") and not any(isinstance(a, ast.For) for a in A.ancestors(lp) if a is not fn.node and any(x is fn.node for x in A.ancestors(a))):
-            outer = (lp, it, src)
+            outer = (lp, it, src, zipped)
             break
     key = "arms are the forward successors of the branching block"
     if outer is None:
         out.append(unresolved("QUERY-4", fn.qualname, key, where, "find_branch_regions is not written in the recognised form (loop over the successors of the branching block)"))
         return out
-    lp, it, src = outer
-    arm = A.unparse(lp.target.elts[-1] if isinstance(lp.target, ast.Tuple) else lp.target)
+    lp, it, src, zipped = outer
+    arm = A.unparse((lp.target.elts[0] if zipped else lp.target.elts[-1]) if isinstance(lp.target, ast.Tuple) else lp.target)
     if src.attr == "_jump_targets":
         out.append(bad("QUERY-4", fn.qualname, key, ctx.where(fn, lp), "the arms are taken from the raw successor list: a declared back edge becomes a branch arm"))
     else:
@@ -421,32 +527,15 @@ def query4(ctx) -> List[Ob]:
         # one record per arm
         key2 = "one record per arm: placeholder or region"
         appends = [a for a in ast.walk(lp) if isinstance(a, ast.Call) and isinstance(a.func, ast.Attribute) and a.func.attr == "append" and a.args]
-        res_names = {A.unparse(a.func.value) for a in appends}
         nones = [a for a in appends if isinstance(a.args[0], ast.Constant) and a.args[0].value is None]
-        regs = [a for a in appends if isinstance(a.args[0], ast.Tuple) and A.unparse(a.args[0].elts[0]) == arm]
-        shape_ok = False
-        inner_for = next((a for a in A.ancestors(c) if isinstance(a, ast.For) and a is not lp), None)
-        if len(nones) == 1 and len(regs) == 1 and len(res_names) == 1:
-            n_if = next((a for a in A.ancestors(nones[0]) if isinstance(a, ast.If)), None)
-            if inner_for is not None and n_if is not None and any(x_ is inner_for for x_ in A.ancestors(n_if)):
-                # for ... if cond: append(None); break  else: append(region)
-                stmts = n_if.body
-                st = next((s for s in stmts if isinstance(s, ast.Expr) and s.value is nones[0]), None)
-                brk = st is not None and stmts.index(st) + 1 < len(stmts) and isinstance(stmts[stmts.index(st) + 1], ast.Break)
-                in_else = any(isinstance(s, ast.Expr) and s.value is regs[0] for s in inner_for.orelse)
-                shape_ok = bool(brk and in_else and any(c is z for z in ast.walk(n_if.test)))
-            elif n_if is not None:
-                # if any(...): append(None) else: append(region)     (the test may be kept in a local first)
-                from .common import see_through
-
-                tst = see_through(ctx, fn, n_if.test) if isinstance(n_if.test, ast.Name) else n_if.test
-                if tst is not None and any(c is z for z in ast.walk(tst)):
-                    in_else = any(isinstance(s, (ast.Expr,)) and s.value is regs[0] for s in n_if.orelse) or any(regs[0] is z for s in n_if.orelse for z in ast.walk(s))
-                    shape_ok = in_else and isinstance(tst, ast.Call) and isinstance(tst.func, ast.Name) and tst.func.id == "any"
-        if shape_ok:
-            out.append(ok("QUERY-4", fn.qualname, key2, ctx.where(fn, nones[0]), "None once when some other successor reaches the arm (search stops), else (arm, members) once"))
+        res_names = {A.unparse(a.func.value) for a in nones}
+        # the region record: a tuple (arm, members) or a record class built from them
+        regs = [a for a in appends if A.unparse(a.func.value) in res_names and ((isinstance(a.args[0], ast.Tuple) and a.args[0].elts and A.unparse(a.args[0].elts[0]) == arm) or (isinstance(a.args[0], ast.Call) and a.args[0].args and A.unparse(a.args[0].args[0]) == arm))]
+        verdict = _one_record_per_arm(ctx, fn, lp, c, nones, regs, res_names)
+        if verdict is None:
+            out.append(ok("QUERY-4", fn.qualname, key2, ctx.where(fn, nones[0]), "on every path through one iteration exactly one record is appended: None on the paths where some other successor reaches the arm, (arm, members) on the paths where none does"))
         else:
-            out.append(bad("QUERY-4", fn.qualname, key2, ctx.where(fn, lp), "the result does not get exactly one entry per successor (a placeholder when the test succeeds for some other successor, the region otherwise): the list no longer lines up with the successor positions"))
+            out.append(bad("QUERY-4", fn.qualname, key2, ctx.where(fn, lp), verdict + ": the list no longer lines up with the successor positions"))
     # membership of the region
     key = "region = dominated by the arm and not by the join"
     end = params[2] if len(params) >= 3 else "end"
@@ -540,6 +629,11 @@ def _set_fn(e: ast.AST, jt_texts, graph_texts, kname):
         if isinstance(e.op, ast.BitOr):
             return lambda J, G, K: a(J, G, K) or b(J, G, K)
         return lambda J, G, K: a(J, G, K) and not b(J, G, K)
+    if isinstance(e, ast.Call) and isinstance(e.func, ast.Name) and e.func.id == "any" and len(e.args) == 1 and isinstance(e.args[0], (ast.GeneratorExp, ast.ListComp)) and len(e.args[0].generators) == 1 and isinstance(e.args[0].generators[0].target, ast.Name):
+        # any(C(x) for x in B [if D(x)])  is the truth value of  {x for x in B if D(x) and C(x)}
+        g0 = e.args[0].generators[0]
+        eq = ast.SetComp(elt=ast.Name(id=g0.target.id, ctx=ast.Load()), generators=[ast.comprehension(target=g0.target, iter=g0.iter, ifs=list(g0.ifs) + [e.args[0].elt], is_async=0)])
+        return _set_fn(eq, jt_texts, graph_texts, kname)
     if isinstance(e, (ast.SetComp, ast.ListComp, ast.GeneratorExp)) and len(e.generators) == 1 and isinstance(e.generators[0].target, ast.Name) and A.unparse(e.elt) == e.generators[0].target.id:
         g = e.generators[0]
         base = _set_fn(g.iter, jt_texts, graph_texts, kname)
@@ -567,8 +661,10 @@ def _set_fn(e: ast.AST, jt_texts, graph_texts, kname):
 @rule("QUERY-5", 6, "the dominator computations are fed the graph's own relations: forward targets inside the graph, mutually inverse predecessor / successor tables in the orientation of the function, all nodes, and as seeds exactly the nodes without a predecessor in that orientation")
 def query5(ctx) -> List[Ob]:
     out: List[Ob] = []
+    from .common import loop_form
+
     for fname, reverse in (("_doms", False), ("_post_doms", True)):
-        fn = _fn(ctx, fname)
+        fn = loop_form(_fn(ctx, fname))
         where = ctx.where(fn)
         gparam = fn.params[0].arg
         gtexts = {f"{gparam}.graph", f"{gparam}.graph.keys()", gparam, f"{gparam}.graph.items()"}
@@ -595,11 +691,17 @@ def query5(ctx) -> List[Ob]:
         key = "edge tables"
         edge = None
         for lp in _loops(fn.node):
-            if _strip_order(lp.iter) not in items_texts or not (isinstance(lp.target, ast.Tuple) and len(lp.target.elts) == 2):
+            if _strip_order(lp.iter) in items_texts and isinstance(lp.target, ast.Tuple) and len(lp.target.elts) == 2:
+                srcv, nodev = [A.unparse(e) for e in lp.target.elts]
+                nodevs = {nodev}
+            elif _strip_order(lp.iter) in gtexts - items_texts and isinstance(lp.target, ast.Name):
+                # `for src in G:` with the block read as G[src]
+                srcv = lp.target.id
+                nodevs = {f"{g_}[{srcv}]" for g_ in gtexts if not g_.endswith(")")}
+            else:
                 continue
-            srcv, nodev = [A.unparse(e) for e in lp.target.elts]
             for l2 in [n for n in lp.body if isinstance(n, ast.For)]:
-                if isinstance(l2.iter, ast.Attribute) and A.unparse(l2.iter.value) == nodev and l2.iter.attr in ("jump_targets", "_jump_targets"):
+                if isinstance(l2.iter, ast.Attribute) and A.unparse(l2.iter.value) in nodevs and l2.iter.attr in ("jump_targets", "_jump_targets"):
                     edge = (lp, l2, srcv, A.unparse(l2.target), l2.iter.attr)
         if edge is None:
             out.append(unresolved("QUERY-5", fn.qualname, key, where, "edge loop 'for src, node in graph.items(): for dst in node.jump_targets' not found"))
@@ -647,17 +749,25 @@ def query5(ctx) -> List[Ob]:
             found = True
             c = eadds[0]
             gs = [a for a in A.ancestors(c) if isinstance(a, ast.If) and any(z is lp for z in A.ancestors(a))]
-            if len(gs) != 1 or not (isinstance(gs[0].test, ast.UnaryOp) and isinstance(gs[0].test.op, ast.Not)) or gs[0].orelse and any(c is z for s_ in gs[0].orelse for z in ast.walk(s_)):
+            # `if is_seed:` with a flag that starts True and is cleared where a predecessor is recorded is the
+            # same test as `if not has_pred:` with the flag the other way round
+            pos_flag = False
+            if len(gs) == 1 and isinstance(gs[0].test, ast.Name) and not (gs[0].orelse and any(c is z for s_ in gs[0].orelse for z in ast.walk(s_))):
+                fl_ = gs[0].test.id
+                sets0 = [s2 for s2 in A.walk_no_nested(lp) if isinstance(s2, ast.Assign) and len(s2.targets) == 1 and isinstance(s2.targets[0], ast.Name) and s2.targets[0].id == fl_]
+                if sets0 and all(isinstance(s2.value, ast.Constant) and isinstance(s2.value.value, bool) for s2 in sets0) and any(s2 in lp.body and s2.value.value is True for s2 in sets0):
+                    pos_flag = True
+            if not pos_flag and (len(gs) != 1 or not (isinstance(gs[0].test, ast.UnaryOp) and isinstance(gs[0].test.op, ast.Not)) or gs[0].orelse and any(c is z for s_ in gs[0].orelse for z in ast.walk(s_))):
                 out.append(bad("QUERY-5", fn.qualname, key, ctx.where(fn, lp), f"a node becomes a seed under '{A.unparse(gs[0].test)[:50] if gs else 'no condition'}', not exactly when it has no predecessor"))
                 break
-            subject = gs[0].test.operand
+            subject = gs[0].test if pos_flag else gs[0].test.operand
             # flag form: `seen_pred = False` at the top of the iteration, `seen_pred = True` exactly where an
             # entry keyed by this node is put into the predecessor table - "no predecessor recorded"
             if isinstance(subject, ast.Name):
                 fl = subject.id
                 sets_ = [s2 for s2 in A.walk_no_nested(lp) if isinstance(s2, ast.Assign) and len(s2.targets) == 1 and isinstance(s2.targets[0], ast.Name) and s2.targets[0].id == fl]
-                inits_ = [s2 for s2 in sets_ if s2 in lp.body and isinstance(s2.value, ast.Constant) and s2.value.value is False]
-                trues_ = [s2 for s2 in sets_ if isinstance(s2.value, ast.Constant) and s2.value.value is True]
+                inits_ = [s2 for s2 in sets_ if s2 in lp.body and isinstance(s2.value, ast.Constant) and s2.value.value is pos_flag]
+                trues_ = [s2 for s2 in sets_ if isinstance(s2.value, ast.Constant) and s2.value.value is (not pos_flag)]
                 if sets_ and len(inits_) == 1 and trues_ and len(inits_) + len(trues_) == len(sets_):
                     def _beside_pred_insert(s2) -> bool:
                         for par in ast.walk(lp):
@@ -909,6 +1019,24 @@ def query6(ctx) -> List[Ob]:
     else:
         gi, it = wrap[0].methods["__getitem__"], wrap[0].methods["__iter__"]
         vx = [p.arg for p in gi.params if p.arg != "self"][0]
+        # what the adapter holds: the block table itself (`Wrap(self.graph)`; `self.A = graph`) or the graph
+        # object (`Wrap(self)`; the table is `self.A.graph`)
+        GT = "self.graph"
+        init_ = wrap[0].methods.get("__init__")
+        ctor_arg = None
+        for c_ in A.walk_no_nested(cs.node):
+            if isinstance(c_, ast.Call) and (A.dotted(c_.func) or "").split(".")[-1] == wrap[0].name and len(c_.args) == 1:
+                ctor_arg = A.unparse(c_.args[0])
+        if init_ is not None and ctor_arg is not None:
+            ip = [p.arg for p in init_.params if p.arg != "self"]
+            for s_ in A.walk_no_nested(init_.node):
+                if isinstance(s_, ast.Assign) and len(s_.targets) == 1 and isinstance(s_.targets[0], ast.Attribute) and A.unparse(s_.targets[0].value) == "self" and ip and A.unparse(s_.value) == ip[0]:
+                    if ctor_arg == "self.graph":
+                        GT = f"self.{s_.targets[0].attr}"
+                    elif ctor_arg == "self":
+                        GT = f"self.{s_.targets[0].attr}.graph"
+                    else:
+                        GT = "<unknown>"
         rets = [r for r in A.walk_no_nested(gi.node) if isinstance(r, ast.Return) and r.value is not None]
         okg = False
         whyg = "the adapter's __getitem__ is not a filter of the block's forward jump targets"
@@ -922,14 +1050,14 @@ def query6(ctx) -> List[Ob]:
                 bt = A.unparse(base)
                 filt = {A.unparse(i) for i in gen.ifs}
                 tv = A.unparse(gen.target)
-                if bt == f"self.graph[{vx}]._jump_targets":
+                if bt == f"{GT}[{vx}]._jump_targets":
                     whyg = "the raw successor list is handed to the SCC routine: declared back edges of enclosing loops make inner blocks mutually reachable again and the same loop is found for ever"
-                elif bt == f"self.graph[{vx}].jump_targets" and filt == {f"{tv} in self.graph"} and A.unparse(val.elt) == tv:
+                elif bt == f"{GT}[{vx}].jump_targets" and filt == {f"{tv} in {GT}"} and A.unparse(val.elt) == tv:
                     okg = True
-                elif bt == f"self.graph[{vx}].jump_targets":
+                elif bt == f"{GT}[{vx}].jump_targets":
                     whyg = f"successors are filtered by {sorted(filt)}, not by membership of the graph: targets outside the sub-graph reach the SCC routine (KeyError) or inside ones are dropped"
         itr = [r for r in A.walk_no_nested(it.node) if isinstance(r, ast.Return) and r.value is not None]
-        okv = len(itr) == 1 and _strip_order(itr[0].value) in ("self.graph.keys()", "self.graph")
+        okv = len(itr) == 1 and _strip_order(itr[0].value) in (f"{GT}.keys()", GT)
         if okg and okv:
             out.append(ok("QUERY-6", cs.qualname, key, ctx.where(cs), "G[v] = [k for k in graph[v].jump_targets if k in graph]; iter(G) = all keys"))
         else:
@@ -958,7 +1086,9 @@ def query6(ctx) -> List[Ob]:
 @rule("QUERY-7", 5, "the dominator fix-point solves dom(n) = {n} | intersection of dom(p) over the predecessors p: seeds start as {e}, every other node starts at the full node set and is queued, an update re-queues the successors; immediate dominators are the strict dominators minus the strict dominators of each of them")
 def query7(ctx) -> List[Ob]:
     out: List[Ob] = []
-    fn = _fn(ctx, "_find_dominators_internal")
+    from .common import loop_form
+
+    fn = loop_form(_fn(ctx, "_find_dominators_internal"))
     E, N, P, S = [p.arg for p in fn.params][:4]
     where = ctx.where(fn)
     rets = [r for r in A.walk_no_nested(fn.node) if isinstance(r, ast.Return) and isinstance(r.value, ast.Name)]
@@ -1003,6 +1133,23 @@ def query7(ctx) -> List[Ob]:
                     good = True
                     W = A.unparse(q[0].value.func.value)
                     w2 = ctx.where(fn, lp)
+    if not good:
+        # split spelling: the queue is the filter of N by `not in E`, the table is initialised from the queue
+        for lp in _loops(fn.node):
+            if A.unparse(lp.iter) == N and len(lp.body) == 1 and isinstance(lp.body[0], ast.If):
+                n = A.unparse(lp.target)
+                i = lp.body[0]
+                if A.unparse(i.test) == f"{n} not in {E}" and not i.orelse and len(i.body) == 1:
+                    q = [s for s in i.body if isinstance(s, ast.Expr) and isinstance(s.value, ast.Call) and isinstance(s.value.func, ast.Attribute) and s.value.func.attr == "append" and A.unparse(s.value.args[0]) == n]
+                    if q:
+                        Wc = A.unparse(q[0].value.func.value)
+                        for l2 in _loops(fn.node):
+                            if A.unparse(l2.iter) == Wc and len(l2.body) == 1 and isinstance(l2.body[0], ast.Assign) and A.lineno(l2) >= A.lineno(lp):
+                                n2 = A.unparse(l2.target)
+                                if A.unparse(l2.body[0].targets[0]) == f"{D}[{n2}]" and A.unparse(l2.body[0].value) in (f"set({N})", f"{{*{N}}}"):
+                                    good = True
+                                    W = Wc
+                                    w2 = ctx.where(fn, lp)
     if not good:
         # comprehension spelling:  W = [n for n in N if n not in E];  D.update((n, set(N)) for n in W)
         #                     or   D = {.. seeds ..}; D |= {n: set(N) for n in W}
